@@ -54,7 +54,7 @@ pub fn run_c02(cfg: &Cfg, log: &mut Log) {
                 }
                 Err(f) => {
                     log.violation("C02", &format!("C02/eps/{}", class), rc.name, Some(&v),
-                        format!("deserialize_eps from a 4096-aligned buffer failed: {}", fail_str(f)), vec![]);
+                        format!("deserialize_eps from a 256-aligned buffer failed: {}", fail_str(f)), vec![]);
                 }
             }
             log.sample(J::obj(vec![("type", J::s(rc.name)), ("value", J::s(show_val(&v))), ("borrowed_parts", J::u(w.parts.len() as u64))]));
